@@ -10,7 +10,11 @@ use std::sync::atomic::{AtomicU64, AtomicUsize, Ordering};
 use std::sync::Mutex;
 use std::time::Instant;
 
-pub const VERIF_ROOT: &str = "/verif";
+/// Output root (evidence/, replays/, known_findings.json).  `VERIF_ROOT` in the environment
+/// redirects it (used only by tools/scratch_check.sh for runs against scratch copies).
+pub fn verif_root() -> String {
+    std::env::var("VERIF_ROOT").unwrap_or_else(|_| "/verif".to_string())
+}
 
 #[derive(Clone, Copy, PartialEq, Eq, Debug)]
 pub enum Tier {
@@ -137,7 +141,7 @@ impl Run {
         install_panic_hook();
         // known findings
         let mut known = vec![];
-        let kf_path = format!("{VERIF_ROOT}/known_findings.json");
+        let kf_path = format!("{}/known_findings.json", verif_root());
         if let Ok(txt) = std::fs::read_to_string(&kf_path) {
             match serde_json::from_str::<Value>(&txt) {
                 Ok(v) => {
@@ -245,7 +249,7 @@ impl Run {
                 return; // counted, but no more artefacts
             }
         }
-        let dir = PathBuf::from(format!("{VERIF_ROOT}/replays/{}", self.id));
+        let dir = PathBuf::from(format!("{}/replays/{}", verif_root(), self.id));
         let _ = std::fs::create_dir_all(&dir);
         let path = dir.join(format!("{:016x}.json", fnv(key)));
         let body = json!({
@@ -366,7 +370,7 @@ impl Run {
             "wall_s": (wall * 1000.0).round() / 1000.0,
             "violations": nviol,
         });
-        let dir = format!("{VERIF_ROOT}/evidence");
+        let dir = format!("{}/evidence", verif_root());
         let _ = std::fs::create_dir_all(&dir);
         let path = format!("{dir}/{}.json", self.id);
         if let Err(e) = std::fs::write(&path, serde_json::to_string_pretty(&ev).unwrap() + "\n") {
